@@ -6,6 +6,7 @@ import (
 	"go/types"
 	"sort"
 	"strings"
+	"sync"
 
 	"golang.org/x/tools/go/ssa"
 
@@ -24,6 +25,45 @@ func newByteInterp(p *load.Program) *an.ByteInterp {
 		VarWriters: map[string]bool{"writeVarInt": true},
 		VarLenFns:  map[string]bool{"varIntLen": true},
 	}
+}
+
+// canonParam names a parameter of a declared function by the name it had when the tables were reviewed.
+func canonParam(p *load.Program, prm *types.Var) string {
+	// find the function that declares the parameter: its ssa form carries the canonical names
+	if fn := declaringFunc(p, prm); fn != nil {
+		for _, sp := range fn.Params {
+			if sp.Object() == prm {
+				return an.ParamName(sp)
+			}
+		}
+	}
+	return prm.Name()
+}
+
+var (
+	declMu    sync.Mutex
+	declCache = map[*load.Program]map[*types.Var]*ssa.Function{}
+)
+
+func declaringFunc(p *load.Program, prm *types.Var) *ssa.Function {
+	declMu.Lock()
+	defer declMu.Unlock()
+	m := declCache[p]
+	if m == nil {
+		m = map[*types.Var]*ssa.Function{}
+		for fn := range p.AllFunctions() {
+			if !load.InModule(fn) {
+				continue
+			}
+			for _, sp := range fn.Params {
+				if v, ok := sp.Object().(*types.Var); ok {
+					m[v] = fn
+				}
+			}
+		}
+		declCache = map[*load.Program]map[*types.Var]*ssa.Function{p: m}
+	}
+	return m[prm]
 }
 
 // linDiff lists the terms that differ between two linear forms.
@@ -194,9 +234,9 @@ func c04WriteRequest(p *load.Program, r *oblig.Report) {
 	for i := 0; i < sig.Params().Len(); i++ {
 		prm := sig.Params().At(i)
 		if b, ok := prm.Type().Underlying().(*types.Basic); ok && b.Info()&types.IsNumeric != 0 {
-			args = append(args, &an.SV{K: 'n', L: an.AtomLin("$p:" + prm.Name())})
+			args = append(args, &an.SV{K: 'n', L: an.AtomLin("$p:" + canonParam(p, prm))})
 		} else {
-			args = append(args, &an.SV{K: 'r', Path: "$p:" + prm.Name(), T: prm.Type()})
+			args = append(args, &an.SV{K: 'r', Path: "$p:" + canonParam(p, prm), T: prm.Type()})
 		}
 	}
 	bi.CallFunc(fobj, &an.SV{K: 'r', Path: "$c", T: sig.Recv().Type()}, args, st)
@@ -271,17 +311,17 @@ func c04OneWriter(p *load.Program, r *oblig.Report, rule string, fobj *types.Fun
 	for i := 0; i < sig.Params().Len(); i++ {
 		prm := sig.Params().At(i)
 		if b, ok := prm.Type().Underlying().(*types.Basic); ok && b.Info()&types.IsNumeric != 0 {
-			args = append(args, &an.SV{K: 'n', L: an.AtomLin("$p:" + prm.Name())})
+			args = append(args, &an.SV{K: 'n', L: an.AtomLin("$p:" + canonParam(p, prm))})
 		} else {
-			args = append(args, &an.SV{K: 'r', Path: "$p:" + prm.Name(), T: prm.Type()})
+			args = append(args, &an.SV{K: 'r', Path: "$p:" + canonParam(p, prm), T: prm.Type()})
 		}
 		// a record batch parameter carries size = recordBatchSize(msgs...) (established by newRecordBatch, checked by C05.R2)
 		if an.NamedIs(prm.Type(), load.ModPath, "recordBatch") {
 			if rbs, ok := p.Pkg("").Types.Scope().Lookup("recordBatchSize").(*types.Func); ok {
 				bi2 := newByteInterp(p)
-				sz := bi2.CallFunc(rbs, nil, []*an.SV{{K: 'r', Path: "$p:" + prm.Name() + ".msgs", T: types.NewSlice(p.Pkg("").Types.Scope().Lookup("Message").Type())}}, newBState())
+				sz := bi2.CallFunc(rbs, nil, []*an.SV{{K: 'r', Path: "$p:" + canonParam(p, prm) + ".msgs", T: types.NewSlice(p.Pkg("").Types.Scope().Lookup("Message").Type())}}, newBState())
 				if sz != nil && sz.K == 'n' && len(bi2.Errs) == 0 {
-					st.Heap["$p:"+prm.Name()+".size"] = sz
+					st.Heap["$p:"+canonParam(p, prm)+".size"] = sz
 				}
 			}
 		}
